@@ -33,9 +33,15 @@ def main():
     mod = importlib.import_module("harness.props." + prop.lower())
     impl = mod.impl_init()
     signal.signal(signal.SIGALRM, _alarm)
+    timeouts = 0
     with open(outp, "w") as out:
         for line in open(inp):
             case = json.loads(line)
+            if timeouts >= 3:
+                # circuit breaker: a hanging implementation is already established; do not spend
+                # the per-case alarm on every remaining case of this chunk
+                out.write(json.dumps({"skipped": "after 3 timeouts in this worker"}) + "\n")
+                continue
             try:
                 signal.alarm(tmo)
                 try:
@@ -44,6 +50,7 @@ def main():
                     signal.alarm(0)
             except CaseTimeout:
                 res = {"exc": "TIMEOUT"}
+                timeouts += 1
             except MemoryError:
                 res = {"exc": "MemoryError"}
             except BaseException as e:  # noqa
